@@ -256,27 +256,46 @@ Definition tbl_set (t : chunk_table) (k : Z) (v : list chunk) : chunk_table := (
 
 Record rcfg := mkRcfg { r_mode : sec_mode; r_pnone : bool; r_algo : algo; r_chan : Z; r_maxchunks : Z; r_maxmsg : Z }.
 
+(* checkSequenceNumber (end of readChunk, after the chunk is verified): the number must be greater than the one
+   accepted last on the channel, or be a roll-over (last >= MaxUint32-1024 and n < 1024); the first chunk may
+   carry any number *)
+Definition seq_accept (last : option Z) (n : Z) : bool :=
+  match last with
+  | None => true
+  | Some l => (l <? n) || ((4294967295 - 1024 <=? l) && (n <? 1024))
+  end.
+
+Definition rstate := (chunk_table * option Z)%type.
+
 (* one frame through readChunk + the body of the Receive loop; [] = Receive keeps looping *)
-Definition receive_step (c : rcfg) (t : chunk_table) (r : bytes) : chunk_table * list out :=
+Definition receive_step (c : rcfg) (st : rstate) (r : bytes) : rstate * list out :=
+  let '(t, last) := st in
   match read_chunk (r_mode c) (r_pnone c) (r_algo c) (r_chan c) r with
-  | Err e => (t, [Failed 0 e])
-  | Panic => (t, [Crashed])
+  | Err e => (st, [Failed 0 e])
+  | Panic => (st, [Crashed])
   | Ok ch =>
+    if negb (seq_accept last (c_seq ch)) then (st, [Failed 0 ESequenceNumber])
+    else
+    let last' := Some (c_seq ch) in
     let req := c_req ch in
-    if Byte.eqb (c_type ch) "A" then (tbl_del t req, [Aborted req])
+    if Byte.eqb (c_type ch) "A" then ((tbl_del t req, last'), [Aborted req])
     else if Byte.eqb (c_type ch) "C" then
       let l := tbl_get t req ++ [ch] in
-      if (r_maxchunks c >? 0) && ((zlen l) mod 4294967296 >? r_maxchunks c) then (tbl_del t req, [Failed req ETooManyChunks])
-      else (tbl_set t req l, [])
+      if (r_maxchunks c >? 0) && ((zlen l) mod 4294967296 >? r_maxchunks c) then ((tbl_del t req, last'), [Failed req ETooManyChunks])
+      else ((tbl_set t req l, last'), [])
     else
       let all := tbl_get t req ++ [ch] in
       let b := merge_chunks all in
-      if (r_maxmsg c >? 0) && ((zlen b) mod 4294967296 >? r_maxmsg c) then (tbl_del t req, [Failed req EMessageTooLarge])
-      else (tbl_del t req, [Deliver req (c_chan ch) b])
+      if (r_maxmsg c >? 0) && ((zlen b) mod 4294967296 >? r_maxmsg c) then ((tbl_del t req, last'), [Failed req EMessageTooLarge])
+      else ((tbl_del t req, last'), [Deliver req (c_chan ch) b])
   end.
 
-Fixpoint receive_all (c : rcfg) (t : chunk_table) (frames : list bytes) : list out :=
+Fixpoint receive_run (c : rcfg) (st : rstate) (frames : list bytes) : rstate * list out :=
   match frames with
-  | [] => []
-  | r :: rest => let '(t', o) := receive_step c t r in o ++ receive_all c t' rest
+  | [] => (st, [])
+  | r :: rest =>
+    let '(st', o) := receive_step c st r in
+    let '(st'', os) := receive_run c st' rest in (st'', o ++ os)
   end.
+
+Definition receive_all (c : rcfg) (st : rstate) (frames : list bytes) : list out := snd (receive_run c st frames).
